@@ -2,7 +2,7 @@
 import re
 from engine import rule, Inst, AnchorLost
 from ctx import match_arms, arm_of, arm_region, RXPACKET, CTXMSG, short_ty, fmt_atoms
-from cond import Cond, dominating_edges, field_pred
+from cond import Cond, dominating_edges, field_pred, int_switch_facts
 from effects import SESSION, CONNECTION, effects, _collect_env_idx
 from mir import Body, callee_name, callee_resolved, symex, sym_fold, sym_leaves, _symex_rv, place_fields, strip_generics
 from pathutil import traced_paths, exit_kind
@@ -262,8 +262,8 @@ def dispatch(ctx):
         f = {a[2] for a in s if a[0] == "field" and a[1] == SESSION and ("UnboundedSender<" in sess_ty.get(a[2], "") or a[2] == "subscriptions")}
         calls = {a[1] for a in s if a[0] == "call"}
         keyf = {a[2] for a in s if a[0] == "field" and a[1].endswith("PublishRx")}
-        ok = f == {"subscriptions"} and any(c.endswith("linear_search_by_key") for c in calls) and "subscription_identifier" in keyf
-        out.append(Inst("DISPATCH", "receiver", ok, e.site(), "receiver from Session.%s via %s keyed by PublishRx.%s" % (sorted(f), sorted(short_ty(c) for c in calls if "search" in c), sorted(keyf)),
+        ok = f == {"subscriptions"} and any(c.endswith("linear_search_by_key") or c.endswith("Iterator::position") for c in calls) and "subscription_identifier" in keyf
+        out.append(Inst("DISPATCH", "receiver", ok, e.site(), "receiver from Session.%s via %s keyed by PublishRx.%s" % (sorted(f), sorted(short_ty(c) for c in calls if "search" in c or c.endswith("::position")), sorted(keyf)),
                         "subscriptions[linear_search_by_key(subscriptions, publish.subscription_identifier)]"))
         # payload intact
         agg = hp.origin(e.term["ops"][1], through_calls=False)
@@ -383,6 +383,54 @@ def _poll_shape(e):
 
 # ------------------------------------------------------------------------------------ IDALLOC
 
+_NZ_CTOR = {}
+
+
+def nonzero_ctor(ctx, t):
+    """The call terminator is a fallible conversion of an integer into the crate's NonZero wrapper whose implementation
+    returns Ok only on a path where the argument was tested to be non-zero, with the argument itself inside. Returns the
+    converted operand, or None."""
+    c = t.get("callee") or {}
+    if not (c.get("def") or "").endswith("TryFrom::try_from") or "NonZero<" not in (c.get("self_ty") or "") or len(t["ops"]) != 1:
+        return None
+    path = c.get("resolved") or ""
+    if path not in _NZ_CTOR:
+        ok = False
+        f = ctx.facts.fn(path)
+        if f is not None and f["file"].startswith("src/"):
+            b = ctx.world.body(path)
+            oks = []
+            for i in sorted(b.reach):
+                for st in b.blocks[i]["stmts"]:
+                    if st["k"] == "assign" and st["rv"]["k"] == "agg" and st["rv"].get("variant") == "Ok" and "Result" in (st["rv"].get("adt") or ""):
+                        oks.append((i, st["rv"]["ops"][0]))
+            ok = bool(oks)
+            for i, pay in oks:
+                o = b.origin(pay, through_calls=False)
+                inner = o[2]["rv"]["ops"][0] if o[0] == "agg" and len(o[2]["rv"]["ops"]) == 1 else None
+                io = b.origin(inner, through_calls=False) if inner is not None else None
+                same = io is not None and io[0] == "place" and not io[1]["p"] and io[1]["l"] == 1
+                if not (same and _tested_nonzero(b, 1, i)):
+                    ok = False
+        _NZ_CTOR[path] = ok
+    return t["ops"][0] if _NZ_CTOR[path] else None
+
+
+def through_nonzero_ctor(ctx, body, op):
+    """If the operand is the Ok payload of such a conversion: the converted operand."""
+    o = body.origin(op, through_calls=False)
+    if o[0] != "place":
+        return None
+    pl = o[1]
+    proj = [p for p in pl["p"] if p != "deref"]
+    if len(proj) != 2 or not (isinstance(proj[0], dict) and proj[0].get("dc") == "Ok" and isinstance(proj[1], dict) and proj[1].get("f") == 0):
+        return None
+    ds = body.whole_defs(pl["l"])
+    if len(ds) != 1 or ds[0][0] != "call":
+        return None
+    return nonzero_ctor(ctx, ds[0][2])
+
+
 def nonzero(ctx, body, op, depth=0):
     """Conservative proof that an integer operand cannot be zero. Returns (bool, reason)."""
     if depth > 4:
@@ -390,6 +438,8 @@ def nonzero(ctx, body, op, depth=0):
     v = body.fold(op)
     if v is not None:
         return v != 0, "constant %d" % v
+    if through_nonzero_ctor(ctx, body, op) is not None:
+        return True, "the Ok payload of NonZero::try_from, which rejects zero"
     o = body.origin(op, through_calls=False)
     if o[0] == "call":
         t = o[2]
@@ -498,6 +548,9 @@ def nonzero_at(ctx, body, op, bb, depth=0, _seen=None):
 def identity_of_rmw(ctx, body, op, depth=0, _seen=None):
     """Is the operand the unmodified result of an atomic read-modify-write (possibly returned by a local helper, possibly
     one of several such results: `let mut id = next(); while id == 0 { id = next(); }`)?"""
+    inner = through_nonzero_ctor(ctx, body, op)
+    if inner is not None and depth < 6:
+        return identity_of_rmw(ctx, body, inner, depth + 1, _seen)        # NonZero::try_from(x) keeps x
     o = body.origin(op, through_calls=False)
     if o[0] == "call":
         nm = callee_name(o[2]) or ""
@@ -731,15 +784,20 @@ def own(ctx):
             for es in err_succ:
                 reach = body.reachable_from(es)
                 kinds = sorted({x["kind"] for x in all_exits if x["bb"] in reach})
-                found.append((d, kinds))
+                built = set()
+                for x in reach:
+                    for st in body.blocks[x]["stmts"]:
+                        if st["k"] == "assign" and st["rv"]["k"] == "agg" and (st["rv"].get("adt") or "").startswith("client::error::"):
+                            built.add(st["rv"]["adt"].split("::")[-1] + ("::" + st["rv"]["variant"] if st["rv"].get("variant") and st["rv"]["variant"] != st["rv"]["adt"].split("::")[-1] else ""))
+                found.append((d, kinds, sorted(built)))
         return found
     for name, body in ctx.handle_ops().items():
         enq = [e for e in ctx.effects(body) if e.kind == "Enqueue"]
         for e in enq:
             outs = err_edge_outcomes(body, lambda o, e=e: o[0] == "call" and o[1] == e.inner_bb)
-            prop = bool(outs) and all(k and not ({"ok", "other", "callret"} & set(k)) for _, k in outs)
+            prop = bool(outs) and all(k and not ({"ok", "other", "callret"} & set(k)) for _, k, _b in outs)
             out.append(Inst("OWN", "%s:enqueue-propagated@%s" % (name, len([o for o in out if o.key.startswith("OWN:%s:enqueue" % name)])), prop, e.site(),
-                            "failed enqueue %s" % ("ends the operation with an error" if prop else "is ignored or may still end in a normal return (exits reachable from the failure: %s)" % [k for _, k in outs]),
+                            "failed enqueue %s" % ("ends the operation with an error" if prop else "is ignored or may still end in a normal return (exits reachable from the failure: %s)" % [k for _, k, _b in outs]),
                             "fails immediately with ContextExited once the context is gone"))
         for a in body.awaits():
             t = body.term(a["poll_bb"])
@@ -754,10 +812,16 @@ def own(ctx):
                     pr = [p for p in o[1]["p"] if p != "deref"]
                     return len(pr) == 2 and isinstance(pr[0], dict) and pr[0].get("dc") == "Ready"
                 outs = err_edge_outcomes(body, awaited)
-                prop = bool(outs) and all(k and not ({"ok", "other", "callret"} & set(k)) for _, k in outs)
-                out.append(Inst("OWN", "%s:await-result-propagated@%s" % (name, len([o_ for o_ in out if o_.key.startswith("OWN:%s:await-result" % name)])), prop, body.site(a["poll_bb"]),
-                                "a cancelled receiver %s" % ("always ends the operation with an error (Canceled -> ContextExited)" if prop else "may be reported as success or is not tested (exits reachable from Canceled: %s)" % [k for _, k in outs]),
+                prop = bool(outs) and all(k and not ({"ok", "other", "callret"} & set(k)) for _, k, _b in outs)
+                nth = len([o_ for o_ in out if o_.key.startswith("OWN:%s:await-result" % name)])
+                out.append(Inst("OWN", "%s:await-result-propagated@%s" % (name, nth), prop, body.site(a["poll_bb"]),
+                                "a cancelled receiver %s" % ("always ends the operation with an error (Canceled -> ContextExited)" if prop else "may be reported as success or is not tested (exits reachable from Canceled: %s)" % [k for _, k, _b in outs]),
                                 "every operation still pending when the context is dropped completes with ContextExited"))
+                # ... and with that error only: nothing else is built on the cancelled edge
+                other = sorted({v for _, _k, bs in outs for v in bs if not re.search(r"ContextExited|^MqttError", v)})
+                out.append(Inst("OWN", "%s:cancel-is-context-exited@%s" % (name, nth), bool(outs) and not other, body.site(a["poll_bb"]),
+                                "on the cancelled edge of the awaited receiver the operation builds %s" % ("only the conversion of Canceled (ContextExited)" if not other else "other errors as well: %s" % other),
+                                "a dropped response channel is reported as ContextExited, whatever else is true"))
             ok = "oneshot::Receiver" in st
             out.append(Inst("OWN", "%s:await@%s" % (name, len([o for o in out if o.key.startswith("OWN:%s:await" % name)])), ok, body.site(a["poll_bb"]),
                             "awaits %s" % (short_ty(t["callee"].get("self_ty") or "?")), "handle operations await nothing but their own oneshot::Receiver"))
@@ -858,6 +922,7 @@ def resume_expiry(ctx):
                     truth = c.holds_on(s_)
                     k = b.fold(n[1])
                     conds.append((n[0] if truth else {"Eq": "Ne", "Ne": "Eq"}.get(n[0], "!" + n[0]), k))
+                conds.extend(int_switch_facts(b, d, s_, isint))
             site = "%s:%d" % (b.fn["file"], st["line"])
             if rv["k"] == "use" and rv["op"].get("k") == "const":
                 rows.append((tuple(conds), rv["op"]["val"], site))
@@ -928,16 +993,21 @@ def resume_order(ctx):
     # the session is reset exactly on the edge on which it has expired, before the replay
     rs = list(run.calls(r"Context::reset_session$"))
     clears = [e for e in effs if e.kind == "Clear" and e.detail["fields"]]
-    reset_bbs = [i for i, _ in rs] or sorted({e.bb for e in clears})
-    okr = False
-    if reset_bbs:
-        rb = reset_bbs[0]
-        for (d, s_) in run.control_deps.get(rb, set()):
+    # every place where run() empties the session: calls of the reset helper and clears written out in run() itself
+    reset_bbs = sorted({i for i, _ in rs} | {e.bb for e in clears if not e.via})
+    unguarded = []
+    for rb in reset_bbs:
+        g = False
+        for (d, s_) in run.control_dep_closure(rb):
             c = Cond(run, d)
             if c.kind == "call" and (c.callee or "").endswith("session_expired") and edge_truth(c, s_) is True:
-                okr = rtb in run.reachable_from(rb) and rb not in run.reachable_from(rtb)
-        okr = okr and all(x in run.reachable_from(rb) or x == rb or run.dominates(rb, x) for x in reset_bbs)
-    out.append(Inst("RESUME-ORDER", "reset-iff-expired", okr, run.site(reset_bbs[0]) if reset_bbs else run.site(0), "the session is reset on the true edge of session_expired, before the replay: %s" % okr, "expired session: nothing re-sent, abandoned operations fail"))
+                g = rtb in run.reachable_from(rb) and rb not in run.reachable_from(rtb)
+        if not g:
+            unguarded.append(run.site(rb))
+    okr = bool(reset_bbs) and not unguarded
+    out.append(Inst("RESUME-ORDER", "reset-iff-expired", okr, run.site(reset_bbs[0]) if reset_bbs else run.site(0),
+                    "the session is emptied at %d place(s) of run(), each on the true edge of session_expired before the replay: %s%s" % (len(reset_bbs), okr, "; not so at %s" % sorted(set(unguarded)) if unguarded else ""),
+                    "expired session: nothing re-sent, abandoned operations fail; a live session is never emptied"))
     # the replay loop
     loop_blocks = {b_ for b_ in run.reach if rtb in run.reachable_from(b_) and b_ in run.reachable_from(rtb)} | {rtb}
     before = {b_ for b_ in run.reach if rtb in run.reachable_from(b_)}
@@ -951,15 +1021,22 @@ def resume_order(ctx):
     out.append(Inst("RESUME-ORDER", "replay-front-to-back", okw and not muts, run.site(rtb),
                     "replay writes=%d iterators over the queue=%d reordering adaptors=%d awaited=%s inside a loop=%s mutations=%s" % (len(w), len(it), len(rev), comp is not None, len(loop_blocks) > 1, muts or "none"),
                     "every stored packet, original order, bytes unchanged, each write awaited"))
-    # R5
-    rsb = ctx.body(r"client::context::Context::<[^>]*>::reset_session$")
+    # R5: what the reset clears (a helper, or the statements themselves inside run)
     cleared = set()
-    for e in effects(ctx.world, rsb, 1):
-        if e.kind == "Clear":
+    rs_fn = ctx.facts.find(r"client::context::Context::<[^>]*>::reset_session$")
+    if rs_fn:
+        rsb = ctx.world.body(rs_fn[0]["path"])
+        for e in effects(ctx.world, rsb, 1):
+            if e.kind == "Clear":
+                cleared |= e.detail["fields"]
+        rsite = rsb.site(0)
+    else:
+        for e in clears:
             cleared |= e.detail["fields"]
+        rsite = clears[0].site() if clears else run.site(0)
     sess = ctx.facts.adt(SESSION)
     allf = {f["name"] for f in sess["variants"][0]["fields"] if "VecDeque" in f["ty"]}
-    out.append(Inst("RESUME-ORDER", "reset-clears-all", cleared == allf, rsb.site(0), "cleared %s of %s" % (sorted(cleared), sorted(allf)), "abandoned operations fail instead of hanging (their senders are dropped)"))
+    out.append(Inst("RESUME-ORDER", "reset-clears-all", cleared == allf, rsite, "cleared %s of %s" % (sorted(cleared), sorted(allf)), "abandoned operations fail instead of hanging (their senders are dropped)"))
     # R6
     for nm in ("set_up", "connect", "authorize"):
         b = ctx.coroutine(r"client::context::Context::<[^>]*>::" + nm) if nm != "set_up" else ctx.body(r"client::context::Context::<[^>]*>::set_up$")
